@@ -187,6 +187,25 @@ func (m *monitor) filter(update database.Update) ovsdb.TableUpdates {
 				}
 				ru.New = filterColumns(ru.New, cols)
 				ru.Old = filterColumns(ru.Old, cols)
+				if ru.Modify() && ru2.Modify != nil {
+					// rows leave out the columns that hold their default value,
+					// but a modified column that is now at its default must be
+					// reported or the monitor would never learn about it
+					for column, modification := range *filterColumns(ru2.Modify, cols) {
+						if _, ok := (*ru.New)[column]; ok {
+							continue
+						}
+						switch modification.(type) {
+						case ovsdb.OvsSet:
+							(*ru.New)[column] = ovsdb.OvsSet{GoSet: []interface{}{}}
+						case ovsdb.OvsMap:
+							(*ru.New)[column] = ovsdb.OvsMap{GoMap: map[interface{}]interface{}{}}
+						default:
+							// the modification of any other type is its new value
+							(*ru.New)[column] = modification
+						}
+					}
+				}
 				tu[uuid] = ru
 			}
 			return nil
